@@ -94,14 +94,14 @@ class ProjectSettings:
         """
         Return simulation time vector
 
-        This method uses `linspace` rather than `arange` to avoid accumulating numerical errors that prevent
-        integer years aligning exactly.
+        The time points are computed as ``start + k*dt`` (rather than by repeated addition, or by ``linspace``, whose
+        step depends on the end year) so that integer years align exactly and the points do not depend on the end year.
 
         :return: Array of simulation times
 
         """
 
-        return np.linspace(self.sim_start, self.sim_end, int(np.round((self.sim_end - self.sim_start) / self.sim_dt)) + 1)
+        return self.sim_start + np.arange(int(np.round((self.sim_end - self.sim_start) / self.sim_dt)) + 1) * self.sim_dt
 
     def update_time_vector(self, start: float = None, end: float = None, dt: float = None) -> None:
         """
